@@ -47,7 +47,7 @@ def strategy(tier: str) -> Any:
 
 def strategy2(tier: str) -> Any:
     """End-to-end tier: multi-asset files through the console entry point, predicate applied to the report's detail rows."""
-    return e2e.file_strategy(E2E_HIST, countries=("us", "us", "us", "generic"))
+    return e2e.file_strategy(E2E_HIST, countries=("us", "us", "us", "generic"), flavours=("mixed", "mixed", "mixed", "same_second_trades", "tied_fills"))
 
 
 def lot_order_violations(out: Outcome, txs: List[model.Tx], schedule: Dict[str, str], fractions: List[Dict[str, Any]]) -> None:
